@@ -37,8 +37,10 @@ def root_of(t: Any) -> tuple:
             return ("fresh", k)
         if k == "binop" and t[2][0] == "list":
             return ("fresh", "list")
-        if k in ("param", "free"):
+        if k == "param":
             return ("param", t[1])
+        if k == "free":
+            return ("free", t[1])
         if k == "self":
             return ("self",)
         if k in ("gvar", "cattr", "class", "clsparam", "module", "logger", "enum"):
@@ -85,3 +87,281 @@ def check_pure_reachable(ctx: Ctx, r: Rule, roots: list) -> None:
             if not ok:
                 fail(r, ctx, f, e.node, f"{q} writes {e.kind} {e.key if isinstance(e.key, str) else ''} on {show(e.target)[:80]} (root {root}): state "
                                         f"that outlives the call makes one section / parse depend on another")
+
+
+# ==================================================================================================
+# purity (C17)
+
+AMBIENT_EXT_PREFIXES = ("os.", "time.", "random.", "locale.", "sys.", "uuid.", "socket.", "getpass.", "platform.", "tempfile.",
+                        "glob.", "secrets.", "threading.", "multiprocessing.", "subprocess.", "shutil.", "datetime.datetime.now",
+                        "datetime.datetime.today", "datetime.datetime.utcnow", "datetime.date.today", "importlib.", "gc.", "weakref.",
+                        "atexit.", "signal.", "inspect.")
+AMBIENT_BUILTINS = {"input", "globals", "vars", "id", "eval", "exec", "__import__", "breakpoint", "compile", "dir"}
+
+
+class Purity:
+    def __init__(self, ctx: Ctx, entries: list) -> None:
+        from ..callgraph import CallGraph
+
+        self.ctx = ctx
+        self.cg = CallGraph(ctx)
+        self.entries = entries
+        self.reach = self.cg.reachable(entries)
+
+    def funcs(self, scope: str):
+        for q in sorted(self.cg.funcs):
+            if scope == "reach" and q not in self.reach:
+                continue
+            yield q, self.cg.funcs[q], self.cg.summary(self.cg.funcs[q])
+
+    # ---- W1/W2/W5: writes
+    def fresh_at_callers(self, q: str, pname: str, depth: int = 0) -> Optional[str]:
+        """None if every call site of q binds pname to a freshly allocated object; else a description."""
+        if depth > 3:
+            return "call chain too deep"
+        edges = [e for e in self.cg.callers_of(q) if e.rec is not None and e.kind in ("direct", "ctor")]
+        if not edges:
+            return None if q not in self.reach else "no resolvable call site"
+        for e in edges:
+            kw = dict(e.rec.kwargs)
+            a = kw.get(pname)
+            if a is None:
+                continue
+            root = root_of(a)
+            if root[0] == "fresh":
+                continue
+            if root[0] in ("param",):
+                sub = self.fresh_at_callers(e.caller, root[1], depth + 1)
+                if sub is not None:
+                    return f"{e.caller} passes its parameter {root[1]} ({sub})"
+                continue
+            if root[0] == "self" and self.cg.funcs[e.caller].name in ("__init__", "__post_init__"):
+                continue
+            return f"{e.caller} passes {show(a)[:60]} (root {root[0]})"
+        return None
+
+    def check_writes(self, r: Rule, scope: str = "all") -> None:
+        ctx = self.ctx
+        for q, f, s in self.funcs(scope):
+            for e in s.effects:
+                root = root_of(e.target)
+                what = f"{e.kind} {e.key if isinstance(e.key, str) else ''}".strip()
+                r.inst(f"{q}: {what} on {show(e.target)[:60]} [{root[0]}]")
+                if e.kind == "global_store" or root[0] == "global":
+                    fail(r, ctx, f, e.node, f"{q} writes to module/class-level state ({what} on {show(e.target)[:80]}): it outlives the call and is "
+                                            f"shared by every parse, thread and chart in the process")
+                elif root[0] == "fresh":
+                    continue
+                elif root[0] == "self":
+                    if f.name in ("__init__", "__post_init__"):
+                        continue
+                    fail(r, ctx, f, e.node, f"{q} writes to its own instance outside construction ({what} on {show(e.target)[:80]})")
+                elif root[0] == "free":
+                    continue  # a nested helper writing the enclosing call's local (checked fresh at its definition site)
+                elif root[0] == "param":
+                    why = self.fresh_at_callers(q, root[1])
+                    if why is not None:
+                        fail(r, ctx, f, e.node, f"{q} mutates its parameter `{root[1]}` ({what}) and not every caller passes a freshly allocated "
+                                                f"object: {why}")
+                else:
+                    # unknown root: accept only objects derived from a fresh allocation of this call
+                    ok = any(t[0] in ("list", "dict", "set") or (t[0] == "call" and t[1][0] in ("class", "clsparam"))
+                             for t in subterms(e.target))
+                    if not ok:
+                        fail(r, ctx, f, e.node, f"{q}: cannot show that the object written ({what} on {show(e.target)[:80]}) was allocated inside "
+                                                f"this call")
+
+    def check_free_roots(self, r: Rule) -> None:
+        """Nested helpers writing an enclosing local: that local must be a fresh allocation in the enclosing function."""
+        ctx = self.ctx
+        for q, f, s in self.funcs("all"):
+            for e in s.effects:
+                root = root_of(e.target)
+                if root[0] == "free":
+                    parent = f.parent
+                    ps = self.cg.summary(parent) if parent is not None else None
+                    env = ps.defs.get(f.name) if ps is not None else None
+                    v = env.get(root[1]) if env is not None else None
+                    r.inst(f"{q}: writes enclosing local `{root[1]}` = {show(v)[:60] if v else '?'}")
+                    if v is None or root_of(v)[0] != "fresh":
+                        fail(r, ctx, f, e.node, f"{q} writes `{root[1]}` of the enclosing function, which is not a fresh allocation there "
+                                                f"({show(v)[:80] if v else 'unknown'})")
+
+    # ---- W3 mutable defaults
+    def check_defaults(self, r: Rule) -> None:
+        ctx = self.ctx
+        for q, f, s in self.funcs("all"):
+            a = f.node.args
+            for d in list(a.defaults) + [x for x in a.kw_defaults if x is not None]:
+                r.inst(f"{q}: default {ast.unparse(d)[:40]}", nontrivial=False)
+                if isinstance(d, (ast.List, ast.Dict, ast.Set, ast.ListComp, ast.DictComp, ast.SetComp)) or \
+                        (isinstance(d, ast.Call) and not (isinstance(d.func, ast.Name) and d.func.id in ("tuple", "frozenset", "Ticks", "Tick", "Timestamp", "Seconds", "timedelta"))
+                         and not (isinstance(d.func, ast.Attribute) and d.func.attr in ("timedelta",))):
+                    fail(r, ctx, f, d, f"{q} has a mutable default argument ({ast.unparse(d)[:60]}): one object shared by all calls")
+
+    # ---- W4 memoised functions, W6 cached properties
+    def is_pure(self, q: str, seen: Optional[set] = None) -> Optional[str]:
+        seen = seen or set()
+        if q in seen:
+            return None
+        seen.add(q)
+        f = self.cg.funcs.get(q)
+        if f is None:
+            return f"unknown callee {q}"
+        s = self.cg.summary(f)
+        if s.effects:
+            return f"{q} has write effects"
+        for c in s.calls:
+            k = c.fn[0]
+            if k == "builtin":
+                if c.fn[1] in AMBIENT_BUILTINS or c.fn[1] in ("open", "print", "hash"):
+                    return f"{q} calls {c.fn[1]}()"
+            elif k == "ext":
+                if not c.fn[1].startswith(("typing.", "datetime.timedelta", "itertools.", "math.", "functools.", "fractions.", "operator.", "re.")):
+                    return f"{q} calls {c.fn[1]}"
+            elif k in ("func", "closure", "boundcls"):
+                sub = self.is_pure(c.fn[1], seen)
+                if sub is not None:
+                    return sub
+            elif k in ("class", "clsparam"):
+                pass
+            elif k == "meth":
+                from ..terms import MUTATING_METHODS
+                if c.fn[1] in MUTATING_METHODS:
+                    return f"{q} calls mutating method .{c.fn[1]}"
+        for root in [e.value for e in s.exits] + [a for e in s.exits for a, _ in e.cond]:
+            for t in subterms(root):
+                if t[0] == "gvar":
+                    return f"{q} reads module-level object {t[1]}"
+                if t[0] == "cattr":
+                    c = self.ctx.prog.classes.get(t[1])
+                    v = self.ctx.ev.class_attr_value(c, t[2]) if c is not None else None
+                    if v is None or root_of(v)[0] != "fresh" or v[0] != "const":
+                        if v is not None and v[0] == "const":
+                            continue
+                        return f"{q} reads class-level object {t[1]}.{t[2]}"
+                if t[0] == "ext" and t[1].startswith(AMBIENT_EXT_PREFIXES):
+                    return f"{q} reads {t[1]}"
+        return None
+
+    def check_memoised(self, r: Rule) -> None:
+        ctx = self.ctx
+        for q, f, s in self.funcs("all"):
+            if not (f.lru_cached or f.kind == "cached_property"):
+                continue
+            kind = "memoised function" if f.lru_cached else "cached property"
+            r.inst(f"{q}: {kind}")
+            why = self.is_pure(q)
+            if why is not None:
+                fail(r, ctx, f, f.node, f"{kind} {q} is not a pure function of its arguments ({why}): a cache hit differs from a recomputation, "
+                                        f"so results depend on what was parsed before")
+            rt = ctx.ev.types.return_type(f)
+            bad_ret = rt is not None and (rt[0] == "dict" or (rt[0] == "seq" and not _immutable_seq_annotation(f)))
+            if bad_ret:
+                fail(r, ctx, f, f.node, f"{kind} {q} returns a mutable container ({rt}): the one cached object is shared by every caller")
+            for e in s.rets():
+                if e.value[0] in ("list", "dict", "set") or (e.value[0] == "comp" and e.value[1] in ("list", "dict", "set")):
+                    fail(r, ctx, f, e.node, f"{kind} {q} returns a freshly built mutable {e.value[0]}: the cached object is shared by every caller")
+            if f.lru_cached:
+                for p in f.params():
+                    pt = ctx.ev.types.param_type(f, p)
+                    if pt is not None and pt[0] in ("dict",) or (pt is not None and pt[0] == "seq" and "list" in ast.unparse(_ann_of(f, p) or ast.Constant(value=""))):
+                        fail(r, ctx, f, f.node, f"{kind} {q}: parameter {p} is annotated with an unhashable/mutable type ({pt})")
+            if f.kind == "cached_property" and f.cls is not None and not f.cls.frozen():
+                fail(r, ctx, f, f.node, f"cached property {q} lives on a non-frozen class: its inputs can change after the value is cached")
+
+    # ---- W7 ambient reads
+    def check_ambient(self, r: Rule, scope: str = "reach") -> None:
+        ctx = self.ctx
+        for q, f, s in self.funcs(scope):
+            r.inst(f"{q}: {len(s.calls)} call site(s) scanned", nontrivial=False)
+            for c in s.calls:
+                if c.fn[0] == "ext" and c.fn[1].startswith(AMBIENT_EXT_PREFIXES):
+                    fail(r, ctx, f, c.node, f"{q} reads ambient state: {c.fn[1]}(...)")
+                if c.fn[0] == "meth" and c.args and any(t[0] == "ext" and t[1].startswith(AMBIENT_EXT_PREFIXES) for t in subterms(c.args[0])):
+                    fail(r, ctx, f, c.node, f"{q} reads ambient state: {show(c.result)[:80]}")
+                if c.fn[0] == "builtin" and c.fn[1] in AMBIENT_BUILTINS:
+                    fail(r, ctx, f, c.node, f"{q} calls {c.fn[1]}(): result depends on the process, not on the text")
+                if c.fn[0] == "builtin" and c.fn[1] == "hash":
+                    fail(r, ctx, f, c.node, f"{q} calls hash(): str hashes differ between interpreters")
+                if c.fn[0] == "builtin" and c.fn[1] == "open":
+                    ok = f.qual.endswith("Chart.from_filepath") and c.args and c.args[0] == ("param", f.params()[1])
+                    if not ok:
+                        fail(r, ctx, f, c.node, f"{q} opens a file other than the chart it was given")
+            for root in [e.value for e in s.exits] + [a for e in s.exits for a, _ in e.cond]:
+                for t in subterms(root):
+                    if t[0] == "ext" and t[1].startswith(("os.environ", "sys.argv", "sys.flags", "sys.path")):
+                        fail(r, ctx, f, f.node, f"{q} reads {t[1]}")
+
+    # ---- W8 unordered iteration
+    def check_unordered(self, r: Rule, scope: str = "reach") -> None:
+        ctx = self.ctx
+
+        def setish(t) -> bool:
+            if t[0] == "set" or (t[0] == "comp" and t[1] == "set"):
+                return True
+            if t[0] == "call" and t[1][0] == "builtin" and t[1][1] in ("set", "frozenset"):
+                return True
+            if t[0] == "binop" and t[1] in ("-", "|", "&", "^"):
+                for side in (t[2], t[3]):
+                    if setish(side) or (side[0] == "call" and side[1][0] == "meth" and side[1][1] in ("keys", "items")):
+                        return True
+            if t[0] == "call" and t[1][0] == "meth" and t[1][1] in ("union", "intersection", "difference", "symmetric_difference"):
+                return True
+            return False
+
+        for q, f, s in self.funcs(scope):
+            for l in s.loops.values():
+                r.inst(f"{q}: loop over {show(l.iter)[:60] if l.iter else 'while'}", nontrivial=False)
+                if l.iter is not None and setish(l.iter):
+                    fail(r, ctx, f, l.node, f"{q} iterates over an unordered set ({show(l.iter)[:100]}): the order of the results depends on the "
+                                            f"interpreter's hash seed, not on the text")
+            for root in [e.value for e in s.exits] + [e.value for e in s.effects if isinstance(e.value, tuple)]:
+                for t in subterms(root):
+                    if t[0] == "comp" and t[1] in ("list", "gen", "dict"):
+                        for bv, it, conds in t[3]:
+                            if setish(it):
+                                fail(r, ctx, f, f.node, f"{q} builds an ordered result from an unordered set ({show(it)[:100]})")
+                    if t[0] == "call" and t[1][0] == "builtin" and t[1][1] in ("list", "tuple") and t[2] and setish(t[2][0]):
+                        fail(r, ctx, f, f.node, f"{q} orders a set arbitrarily ({show(t)[:100]})")
+
+    # ---- import-time effects
+    def check_import_time(self, r: Rule) -> None:
+        ctx = self.ctx
+        for m in ctx.prog.modules.values():
+            for st in m.tree.body:
+                if isinstance(st, ast.Expr) and isinstance(st.value, ast.Call):
+                    d = ast.unparse(st.value.func)
+                    r.inst(f"{m.name}: import-time call {d}()")
+                    if d not in ("logging.basicConfig",):
+                        fail(r, ctx, m, st, f"{m.name} runs {d}(...) at import time: process-wide effect outside the verified list")
+                elif isinstance(st, (ast.For, ast.While, ast.With, ast.Try, ast.Delete, ast.Global, ast.AugAssign)):
+                    fail(r, ctx, m, st, f"{m.name} has a module-level {type(st).__name__} statement: import-time behaviour outside the analysed subset")
+
+    def inventory(self, r: Rule) -> None:
+        """Module/class-level mutable objects (informational instances; their mutation sites are W1 findings)."""
+        ctx = self.ctx
+        for m in ctx.prog.modules.values():
+            for name, (v, a, ln) in m.assigns.items():
+                if isinstance(v, (ast.List, ast.Dict, ast.Set, ast.ListComp, ast.DictComp, ast.SetComp)) or \
+                        (isinstance(v, ast.Call) and ast.unparse(v.func).split(".")[-1] in ("dict", "list", "set", "defaultdict", "OrderedDict", "deque")):
+                    r.inst(f"{m.name}.{name}: module-level mutable object", nontrivial=False)
+        for c in ctx.prog.classes.values():
+            for name, (v, a, ln) in c.body_assigns.items():
+                if isinstance(v, (ast.List, ast.Dict, ast.Set)) or \
+                        (isinstance(v, ast.Call) and ast.unparse(v.func).split(".")[-1] in ("dict", "list", "set", "defaultdict")):
+                    r.inst(f"{c.qual}.{name}: class-level mutable object", nontrivial=False)
+
+
+def _ann_of(f, p):
+    a = f.node.args
+    for x in a.posonlyargs + a.args + a.kwonlyargs:
+        if x.arg == p:
+            return x.annotation
+    return None
+
+
+def _immutable_seq_annotation(f) -> bool:
+    r = getattr(f.node, "returns", None)
+    s = ast.unparse(r) if r is not None else ""
+    return "tuple" in s.lower() or "Tuple" in s or "frozenset" in s or "str" == s
